@@ -3035,6 +3035,9 @@ func (in *inliner) expand(h *helper, call *ast.CallExpr) (*expansion, string) {
 	return exp, why
 }
 
+// typeHiddenAtCall marks the reason "a name of the type means something else at the call site".
+const typeHiddenAtCall = " cannot be written at the call site"
+
 func (in *inliner) expandWith(h *helper, call *ast.CallExpr, thr *threadCtl) (*expansion, string) {
 	sig := h.fn.Type().(*types.Signature)
 	if len(call.Args) != sig.Params().Len() {
@@ -3104,6 +3107,36 @@ func (in *inliner) expandWith(h *helper, call *ast.CallExpr, thr *threadCtl) (*e
 		if err != nil {
 			return nil, "type " + s + " is not expressible"
 		}
+		// a name of the type must mean the type (or the package) at the call site: a local of the caller may hide it
+		hidden := ""
+		var visit func(n ast.Node) bool
+		visit = func(n ast.Node) bool {
+			switch x := n.(type) {
+			case *ast.SelectorExpr: // pkg.T
+				if id, ok := x.X.(*ast.Ident); ok {
+					if _, at := scope.LookupParent(id.Name, call.Pos()); at != nil {
+						if _, isPkg := at.(*types.PkgName); !isPkg {
+							hidden = id.Name
+						}
+					}
+				}
+				return false
+			case *ast.Field: // the names of fields / parameters are not references
+				ast.Inspect(x.Type, visit)
+				return false
+			case *ast.Ident:
+				if _, at := scope.LookupParent(x.Name, call.Pos()); at != nil {
+					if _, isType := at.(*types.TypeName); !isType {
+						hidden = x.Name
+					}
+				}
+			}
+			return true
+		}
+		ast.Inspect(e, visit)
+		if hidden != "" {
+			return nil, "type " + s + typeHiddenAtCall + " (" + hidden + " names something else there)"
+		}
 		zeroPos(e)
 		return e, ""
 	}
@@ -3153,6 +3186,17 @@ func (in *inliner) expandWith(h *helper, call *ast.CallExpr, thr *threadCtl) (*e
 		}
 		te, why := typeExpr(v.Type())
 		if te == nil {
+			// the type cannot be written at the call site because a local hides its name: an argument that has
+			// exactly the parameter's type declares the temporary by itself
+			if at := in.typeOfArg(val); strings.Contains(why, typeHiddenAtCall) && at != nil && types.Identical(at, v.Type()) {
+				if name == "_" {
+					inner = append(inner, &ast.AssignStmt{Lhs: []ast.Expr{ast.NewIdent("_")}, Tok: token.ASSIGN, Rhs: []ast.Expr{val}})
+					return ""
+				}
+				inner = append(inner, &ast.AssignStmt{Lhs: []ast.Expr{ast.NewIdent(name)}, Tok: token.DEFINE, Rhs: []ast.Expr{val}})
+				inner = append(inner, &ast.AssignStmt{Lhs: []ast.Expr{ast.NewIdent("_")}, Tok: token.ASSIGN, Rhs: []ast.Expr{ast.NewIdent(name)}})
+				return ""
+			}
 			return why
 		}
 		id := ast.NewIdent(name)
